@@ -40,7 +40,10 @@ def explore(pid: str, cfg_name: str, tier: str, seed: int) -> Dict[str, Any]:
     mod = importlib.import_module(f"mc.checks.{pid.lower()}")
     keys = cfg.keys(tier, env)
     st, ts = jax.jit(jax.vmap(env.reset))(jnp.stack([jax.random.PRNGKey(k) for k in keys]))
-    A = all_actions(env.action_spec)
+    from mc.graphprops import choose_alphabet
+
+    sub, sub_note = choose_alphabet(env)
+    A = all_actions(env.action_spec) if sub is None else sub
     if len(A) > 64:  # joint alphabets: a spread of 64 actions is enough to diversify the injected roots
         A1 = A[:: max(1, len(A) // 64)][:64]
     else:
@@ -71,9 +74,13 @@ def explore(pid: str, cfg_name: str, tier: str, seed: int) -> Dict[str, Any]:
     plan.pop("time_budget_s", None)
     ex = Explorer(env, f"{cfg_name}@horizon", pid, roots=(t_concat(roots_s), t_concat(roots_ts)), root_desc=descs,
                   monitors=monitors, max_depth=3, max_states=max_states, seed=seed, ctor=cfg.ctor,
-                  eager_budget_s=4.0, eager_max_paths=2, **plan)
+                  eager_budget_s=4.0, eager_max_paths=2, **dict(plan, **({} if sub is None or "actions" in plan
+                                                                         else {"actions": sub})))
     ex.injected_roots = True
     res = ex.run()
+    if sub_note:
+        res["alphabet"] = sub_note
+        res["closed"] = False
     res["family"] = cfg.family
     res["kind"] = "horizon-injected"
     res["injected_step_counts"] = sorted({max(0, T - 2), max(0, T - 1)})
